@@ -16,7 +16,7 @@ META = {
     'engine': 'N',
     'technique': 'bounded-exhaustive differential comparison of the driver codec with an independent reference codec, both directions, plus range probes',
     'text': 'Same finite grid as C01 (21 scalars with boundary values, every container shape over every scalar, deeper '
-            'levels over int/text trees, 8 protocol versions). Three oracles per case: driver bytes == reference bytes '
+            'levels over int/text trees (thorough: all scalars, fourth level over int/text/double/blob), 8 protocol versions). Three oracles per case: driver bytes == reference bytes '
             '(BigInteger varints, scale+unscaled decimals, zig-zag vints, 2^31-offset dates, 16/32-bit collection '
             'framing with -1 for null, unsigned-vint sizes in variable-width vectors); reference bytes decode in the '
             'driver to the value; every out-of-range value (integer edges +-1, duration components beyond int32/int64, '
@@ -48,6 +48,26 @@ def _bytes_differ(st, sv, spv):
     return B.driver_type(st).to_binary(B.to_driver(st, sv), spv) != want
 
 
+def _encode_raises(st, sv, spv):
+    try:
+        B.driver_type(st).to_binary(B.to_driver(st, sv), spv)
+        return False
+    except Exception:
+        return True
+
+
+def _decode_raises(st, sv, spv):
+    try:
+        want = V.encode(st, sv, spv)
+    except V.RefError:
+        return False
+    try:
+        B.driver_type(st).from_binary(want, spv)
+        return False
+    except Exception:
+        return True
+
+
 def _direct_null(t, v):
     t = V.unwrap(t)
     if t[0] in ('list', 'set'):
@@ -61,9 +81,13 @@ def check_encode(part, t, T, vi, v, dv, pv, form, want, case):
     try:
         b = T.to_binary(dv, pv)
     except Exception as e:
-        part.violation('C02/encode-raises/%s/%s' % (t[0], type(e).__name__),
-                       'to_binary(%s, pv=%d) of %s raised %r for a value Cassandra encodes as %s' % (
-                           B.short(dv), pv, tstr(t), e, want[:64].hex()), case)
+        try:
+            lt, lv, where = B.localise(t, v, pv, _encode_raises)
+        except Exception:
+            lt, lv, where = t, v, ()
+        part.violation('C02/encode-raises/%s/%s' % (lt[0], type(e).__name__),
+                       'to_binary(%s, pv=%d) of %s raised %r for a value Cassandra encodes as %s (smallest failing part: %s %s inside %s)' % (
+                           B.short(dv), pv, tstr(t), e, want[:64].hex(), lt[0], B.short(lv, 120), '/'.join(where) or 'top level'), case)
         part.outcome((t[0], 'encode-raises'))
         return
     if b == want:
@@ -92,9 +116,13 @@ def check_decode(part, t, T, v, pv, want_bytes, case, what='reference'):
     try:
         r = T.from_binary(want_bytes, pv)
     except Exception as e:
-        part.violation('C02/decode-raises/%s/%s' % (t[0], type(e).__name__),
-                       'from_binary(%s, pv=%d) of %s raised %r; Cassandra means %s' % (
-                           want_bytes[:64].hex(), pv, tstr(t), e, B.short(v)), case)
+        try:
+            lt, lv, where = B.localise(t, v, pv, _decode_raises)
+        except Exception:
+            lt, lv, where = t, v, ()
+        part.violation('C02/decode-raises/%s/%s' % (lt[0], type(e).__name__),
+                       'from_binary(%s, pv=%d) of %s raised %r; Cassandra means %s (smallest failing part: %s %s inside %s)' % (
+                           want_bytes[:64].hex(), pv, tstr(t), e, B.short(v), lt[0], B.short(lv, 120), '/'.join(where) or 'top level'), case)
         part.outcome((t[0], 'decode-raises'))
         return
     d = B.diff(t, v, B.from_driver(t, r))
@@ -301,7 +329,7 @@ def type_space(quick):
         levels = G.value_type_trees(3, base_deeper=(('int',), ('text',)), thorough=False)
     else:
         lv = G.value_type_trees(3, base_deeper=G.SCALAR_TYPES, thorough=True)
-        lv4 = G.value_type_trees(4, base_deeper=(('int',), ('text',)), thorough=True)
+        lv4 = G.value_type_trees(4, base_deeper=(('int',), ('text',), ('double',), ('blob',)), thorough=True)
         levels = lv + [lv4[3]]
     return [[t for t in lvl if t[0] != 'reversed'] for lvl in levels]
 
@@ -313,7 +341,7 @@ def run(ctx):
     import cassandra.cqltypes       # imported before the fork so that the workers share it
     levels = type_space(ctx.quick)
     types = ctx.rotate([t for lvl in levels for t in lvl])
-    n = ctx.nproc * 4
+    n = 4 if ctx.quick else ctx.nproc * 4      # the quick grid takes ~3 s on one core: a few workers beat 16 forks
     chunks = [(thorough, types[i::n], None) for i in range(n)]
     for part in ctx.pmap(run_chunk, [c for c in chunks if c[1]]):
         ctx.merge(part)
